@@ -46,6 +46,7 @@ structure St where
   cycles : Nat := 0
   steps : Nat := 0
   trace : List Nat := []        -- reversed
+  tcyc : List Nat := []         -- cycle count *before* each traced instruction (reversed)
   ntrace : Nat := 0
   faults : Nat := 0
   stop : Stop := .running
@@ -85,7 +86,19 @@ def xlat (ports : List Port) (a : Nat) (k : Acc) : Nat × Bool :=
     | .wr => (cell, !inW)
     | .rmw => (cell, true)
 
-def step (p : Prog) (ports : List Port) (s : St) : St :=
+/-- run-time configuration: split-port map and the address range whose accesses are logged
+    (hardware registers: every read and write is an observable event) -/
+structure Cfg where
+  ports : List Port := []
+  vlo : Nat := 0
+  vhi : Nat := 0       -- [vlo, vhi) ; empty when vhi ≤ vlo
+  deriving Inhabited
+
+def accCode : Acc → Nat
+  | .rd => 1 | .wr => 2 | .rmw => 3
+
+def step (p : Prog) (cfg : Cfg) (s : St) : St :=
+  let ports := cfg.ports
   match p.fns[s.fn]? with
   | none => { s with stop := .fault "no such function" }
   | some fn =>
@@ -95,6 +108,7 @@ def step (p : Prog) (ports : List Port) (s : St) : St :=
   | some (.bad why) => { s with stop := .fault why }
   | some (.ins mn o cyc tid) =>
     let s := { s with steps := s.steps + 1, cycles := s.cycles + cyc,
+                      tcyc := if tid != 0 && s.ntrace < 4096 then s.cycles :: s.tcyc else s.tcyc,
                       trace := if tid != 0 && s.ntrace < 4096 then tid :: s.trace else s.trace,
                       ntrace := if tid != 0 then s.ntrace + 1 else s.ntrace }
     if mn.isCondBranch then
@@ -134,13 +148,22 @@ def step (p : Prog) (ports : List Port) (s : St) : St :=
         match s.cpu.ea o, accessKind mn with
         | some a, some k => let (a', f) := xlat ports a.toNat k; (Opd.mem (BitVec.ofNat 16 a'), f)
         | _, _ => (o, false)
+      -- log accesses to the volatile range: 100000 + kind * 65536 + address
+      let s := match s.cpu.ea o, accessKind mn with
+        | some a, some k =>
+          if cfg.vlo ≤ a.toNat && a.toNat < cfg.vhi then
+            { s with tcyc := if s.ntrace < 4096 then s.cycles :: s.tcyc else s.tcyc,
+                     trace := if s.ntrace < 4096 then (100000 + accCode k * 65536 + a.toNat) :: s.trace else s.trace,
+                     ntrace := s.ntrace + 1 }
+          else s
+        | _, _ => s
       match s.cpu.exec mn o' with
       | some c => { s with cpu := c, pc := s.pc + 1, faults := if flt then s.faults + 1 else s.faults }
       | none => { s with stop := .fault ("cannot execute " ++ mn.name) }
 
-def run (p : Prog) (ports : List Port) : Nat → St → St
+def run (p : Prog) (cfg : Cfg) : Nat → St → St
   | 0, s => if s.stop == .running then { s with stop := .fuel } else s
-  | n + 1, s => if s.stop == .running then run p ports n (step p ports s) else s
+  | n + 1, s => if s.stop == .running then run p cfg n (step p cfg s) else s
 
 /-! ### loading: text lines → resolved lines -/
 
